@@ -42,7 +42,7 @@ def budget(tier: str) -> dict:
 def _case(draw):
     d = gen.D(draw)
     kind = d.weighted([(3, "para"), (4, "context"), (4, "options")])
-    cfg = d.pick(CFGS) if d.chance(0.75) else gen.config_d(d)
+    cfg = gen.maybe_late(d, d.pick(CFGS), 0.3) if d.chance(0.75) else gen.config_d(d)
     if kind == "para":
         k = d.i(0, 9)
         if k < 6:
